@@ -101,7 +101,11 @@ def run():
             if ref_m == part_m:
                 raise Inconclusive("witness %r for %s (partition union) does not reproduce" % (w, label))
             rs = {"partition-union-differs-from-pattern"}
-            if any(R.tree_at_branch_edge(asts.get(p)) for p in pats):
+            alts = []
+            for p in pats:
+                alts += alternatives(asts.get(p))
+            lhs = [[("alt", alts)]] if all(a is not None for a in alts) else [None]
+            if R.superposition_explains(lhs, [asts.get(p) for p in pats]):
                 rs.add("tree-at-branch-edge")
             rep.candidate(rs,
                           {"short": {"negation": label, "path": w, "pattern_matches": ref_m,
@@ -118,7 +122,21 @@ def run():
         member_asts = []
         for p in pats:
             member_asts += alternatives(asts.get(p))
-        if any(a is not None and not R.plain_tree_tail(a) for a in member_asts):
+        # attributed to the known is_exhaustive finding only if an alternative that matches the
+        # discarded directory really reports Always and belongs to a family where that is known
+        # to be wrong; an alternative that does not report Always has no business in the
+        # exhaustive partition
+        texts_alt = [gen.show(a) for a in member_asts if a is not None]
+        if texts_alt and len(texts_alt) == len(member_asts):
+            arows = probe([{"op": "glob", "e": t} for t in texts_alt])
+            # matched the way the filter compiles it: as a branch of an `any`
+            mrows = probe([{"op": "match", "target": {"any": [t], "mode": "text"}, "paths": [parents[-1]]}
+                           for t in texts_alt])
+            for a, ar, mr in zip(member_asts, arows, mrows):
+                if ar.get("ok") and mr.get("ok") and mr["results"][0]["m"] and ar["exh"] == "Always" \
+                        and R.exhaustive_heuristic_family(a):
+                    roles.add("not-plain-tree-tail")
+        elif any(R.exhaustive_heuristic_family(a) for a in member_asts):
             roles.add("not-plain-tree-tail")
         if parents[-1] == "":
             roles.add("exhaustive-matches-empty-path")
